@@ -26,6 +26,8 @@ type World struct {
 	Dsm   *server.DsManager
 
 	EntP, PredP, PropP string // curie prefixes of the three harness namespaces
+
+	Gen int // incremented by every (re)open
 }
 
 func NewEnv(dir string) *conf.Config {
@@ -46,6 +48,7 @@ func OpenWorld(dir string) (*World, error) {
 }
 
 func (w *World) open() error {
+	w.Gen++
 	w.Store = server.NewStore(w.Env, &statsd.NoOpClient{})
 	w.Dsm = server.NewDsManager(w.Env, w.Store, server.NoOpBus())
 	var err error
